@@ -9,10 +9,11 @@ IMPORTS = ("From Coq Require Import List Ascii String NArith Bool.\n"
            "From Galaxy.Corr Require Import CorrBase C15c.\n")
 
 THEOREMS = ["policy_batch_no_dangling", "pod_batch_no_dangling", "sync_sets_exact", "sync_exact_partial_fresh",
-            "policy_chains_exact"]
+            "policy_chains_exact", "sync_exact_partial_restart", "sync_idem_restart", "restart_pre_fresh", "run_keeps_shape",
+            "sync_exact_partial_written"]
 REFUTED = ["sync_exact_refuted_stale_referenced", "sync_exact_refuted_stale_pod_chain", "sync_exact_refuted_nomatch_flip",
-           "sync_idem_refuted_nomatch_flip", "sync_idem_refuted_conflicting_flags"]
-DEPS = ["Strs", "Nets", "Netfilter", "Policy", "PolicySpec", "NetfilterP", "PolicySetsP", "PolicyPodsP", "PolicyP", "CorrBase",
+           "sync_idem_refuted_nomatch_flip", "sync_idem_refuted_conflicting_flags", "sync_exact_partial_needs_shape"]
+DEPS = ["Strs", "Nets", "Netfilter", "Policy", "PolicySpec", "NetfilterP", "PolicySetsP", "PolicyPodsP", "PolicyP", "PolicyRunP", "CorrBase",
         "C15c", "C15"]
 
 MANIFEST = {
@@ -24,7 +25,17 @@ MANIFEST = {
             "prior content, other sets untouched), sync_exact_partial_fresh (a whole Run on a node with arbitrary foreign chains/"
             "rules/sets but no GLX-owned state is accepted, leaves exactly compile/pod_chain of the cluster and all foreign state as "
             "it was, for every cluster on whose policy keys and local pod keys the name hash does not collide and in which no rule lists "
-            "one address with both nomatch flags). The FULL sync_exact / sync_idem are refuted by five vm_compute witnesses on the faithful model (K5, K5b, K5c, "
+            "one address with both nomatch flags); RESTART: sync_exact_partial_restart / sync_idem_restart (from EVERY prior kernel that "
+            "already holds galaxy state and satisfies restart_pre = partial_pre [consistent, none of the shapes K5/K5b/K5c/K5d] && "
+            "glx_shape [every GLX chain is GLX-INGRESS/EGRESS/PLCY-*/POD-*, no rule outside the GLX-PLCY chains names a GLX set, no "
+            "GLX-POD rule jumps to a GLX-POD chain, no hook rule held twice, no blank in a GLX set element] a whole Run is accepted, "
+            "exact - stale sets destroyed, stale chains deleted, set contents and hook rules corrected - leaves foreign state alone, "
+            "and the next Run changes nothing up to kernel_eqv), restart_pre_fresh (kernels without GLX state satisfy it), "
+            "run_keeps_shape (the kernel such a Run leaves is again consistent and galaxy-shaped), sync_exact_partial_written (on every "
+            "kernel written by galaxy's own successful Runs from a node without GLX state, for any sequence of clusters, the ONLY "
+            "hypothesis is partial_pre - none of the four recorded shapes; exact + foreign-untouched + idempotent + closed). "
+            "sync_exact_partial_needs_shape shows partial_pre alone is not sufficient on arbitrary consistent kernels (duplicate hook "
+            "rule: never exact; GLX-POD rule pinning a stale set: first Run not exact, not idempotent). The FULL sync_exact / sync_idem are refuted by five vm_compute witnesses on the faithful model (K5, K5b, K5c, "
             "K5d; prior states produced by galaxy's own Run), each reproduced on the real code (corpus/C15.json). The model is tied to "
             "the working tree by driving the REAL PolicyManager (hook NewForVerif, strict iptables/ipset fakes) through ~154 (quick) "
             "restart/event histories and comparing the dump after EVERY step with the model's kernel; exactness, foreign-untouched, "
@@ -33,10 +44,12 @@ MANIFEST = {
             "side from man page / kernel source: add -exist rewrites the nomatch flag, del removes by address), Go harness + python "
             "printers, informer plumbing bypassed (handlers called one at a time), name hash not modelled (Section variable H; the "
             "theorems assume it does not collide on the names in play, the driver reads the real hashes from the implementation). "
-            "ONLY MONITORED, not proved: the general sync_exact_partial from prior kernels that already hold GLX state (restart, "
-            "events) outside the four refuted shapes, idempotence of Run, and events_converge - these are checked differentially on "
-            "every generated history (exactness/idempotence monitors on the implementation's dumps; a failure outside the K5-K5d "
-            "shapes is a VIOLATION). Goroutine concurrency of syncPods is modelled sequentially (compared up to rule order)",
+            "ONLY MONITORED, not proved: events_converge (exactness of the Run that follows a sequence of policy / pod event handlers: "
+            "the handlers are other code paths - DeletePolicy syncs pods before rules, UpdatePod / DeletePod edit single chains and "
+            "set elements against the manager's cached policies - and the kernels they leave are not covered by galaxy_written; "
+            "missing are the lemmas that each handler keeps kernel_consistent && glx_shape) and exactness from prior kernels that "
+            "violate glx_shape - checked differentially on every generated history (exactness/idempotence monitors on the "
+            "implementation's dumps; a failure outside the K5-K5d shapes is a VIOLATION). Goroutine concurrency of syncPods is modelled sequentially (compared up to rule order)",
 }
 KNOWN_FINDINGS = [
     {"id": "K5", "status": "open", "tag": "c15-stale-policy-chain-referenced",
